@@ -2083,8 +2083,10 @@ package mcp
 
 // The remaining handlers whose params are required (newMethodInfo$1 rejects absent or null params before they run):
 // none of the SDK's own steps panics, whatever the members of the params are.
-//@ func (*Server).complete [C02]
+//@ func (*Server).complete [C02, C19]
 //@   nopanic
+// (C19, required members) a successful completion result never carries a null values array.
+//@   ensures @values-array-is-never-null result.1 == nil && result.0 != nil ==> result.0.Completion.Values != nil
 //@   callee s.opts.CompletionHandler: modifies *
 //@   requires s != nil && req != nil && req.Params != nil
 //@   modifies *
